@@ -155,8 +155,7 @@ def dedupe(cons):
     seen = set()
     out = []
     for c in cons:
-        c = _norm(c)
-        k = (c.p.key(), c.strict)
+        k = c.row(True)
         if k not in seen:
             seen.add(k)
             out.append(c)
@@ -213,6 +212,15 @@ class Interp(object):
             entry.append(le(0, Poly.atom(v), "assumed %s >= 0" % v))
         entry += list(entry_cons)
         self.entry_state = entry
+        # make len(x) atoms known up front (truthiness facts need them)
+        for sub in ast.walk(fn):
+            if isinstance(sub, ast.Call) and isinstance(sub.func, ast.Name) \
+                    and sub.func.id == "len" and len(sub.args) == 1 and \
+                    chain(sub.args[0]) is not None:
+                try:
+                    self.flow.sym(sub, self.cfg.entry)
+                except AnalysisError:
+                    pass
         self._run()
 
     # -- helpers ---------------------------------------------------------------
@@ -309,6 +317,12 @@ class Interp(object):
                     self.hypotheses[txt] != n.polarity:
                 return None
             new = flow.cond_constraints(n.ast, n.polarity, n)
+            c = chain(n.ast)
+            if c is not None and ("len(%s)" % c) in flow.atom_vars:
+                # truthiness of a sized object: non-empty / empty
+                L = Poly.atom("len(%s)" % c)
+                new = list(new) + ([le(1, L)] if n.polarity else
+                                   [le(L, 0)])
             if new:
                 cons = cons + new
                 if not self._feasible(cons):
@@ -440,6 +454,19 @@ class Interp(object):
         return out
 
     def _closure(self, polys):
+        atoms = set()
+        for p_ in polys:
+            atoms |= p_.atoms()
+        key = frozenset(atoms)
+        cache = self.__dict__.setdefault("_closure_cache", {})
+        if key in cache:
+            ax, splits = cache[key]
+            return list(ax), [list(s_) for s_ in splits]
+        res = self._closure_compute(polys)
+        cache[key] = (list(res[0]), [list(s_) for s_ in res[1]])
+        return res
+
+    def _closure_compute(self, polys):
         ax, splits = self.flow.axioms(polys, self.nonneg)
         for _ in range(2):
             ax2, splits2 = self.flow.axioms(
@@ -492,16 +519,20 @@ class Interp(object):
             return a
         out = []
         pool = dedupe(list(a) + list(b) + list(self.candidates))
+        ka = set(c.row(self.integer) for c in a)
+        kb = set(c.row(self.integer) for c in b)
         for c in pool:
-            if self.entails_state(a, c) and self.entails_state(b, c):
+            r = c.row(self.integer)
+            if (r in ka or self.entails_state(a, c)) and \
+                    (r in kb or self.entails_state(b, c)):
                 out.append(c)
         return dedupe(out)
 
     def _same(self, a, b):
         if a is None or b is None:
             return a is b
-        ka = set((c.p.key(), c.strict) for c in dedupe(a))
-        kb = set((c.p.key(), c.strict) for c in dedupe(b))
+        ka = set(c.row(True) for c in a)
+        kb = set(c.row(True) for c in b)
         return ka == kb
 
     def _run(self):
